@@ -178,6 +178,7 @@ def gen_op(rng: random.Random, cfg: dict, kind: str | None = None) -> dict:
             target=rng.randrange(64) if rng.random() < 0.6 else None, whole=rng.random() < 0.3,
             order=rng.choice(["fwd", "fwd", "rev"]), frames=rng.choice([1, 1, 1, 2, 3]),
             big=rng.random() < (0.35 if fl.get("trap") else 0.1),
+            noop=rng.choice([None] * 30 + ["bg", "empty"]),
         )
         if inval:
             op["invalid"] = "two_frames"
